@@ -452,16 +452,15 @@ theorem pre_length_le_size (s : Sched) : (Sched.pre s).length ≤ Sched.size s :
   | cons e s ih =>
     cases e <;> simp [Sched.pre, Sched.size, Ev.size] <;> omega
 
-theorem readRaw_spec (enc : Encoding) (s : Sched) :
-    (readRaw enc s).1 = (rawSpec enc s.pre s.firstFail).1 ∧
-    (rdIsOk (readRaw enc s).1 = true →
-      Sched.pre (readRaw enc s).2 = (rawSpec enc s.pre s.firstFail).2 ∧
-      Sched.firstFail (readRaw enc s).2 = s.firstFail) := by
-  obtain ⟨h1, h2⟩ := readLineLoop_spec enc (Sched.size s + 1) s []
-  rw [rawLoop_fuel enc _ (Sched.size s + 1) (s.pre.length + 1) _ _
-    (by have := pre_length_le_size s; omega) (by omega)] at h1 h2
-  unfold readRaw rawSpec
-  cases hu : readLineLoop enc (Sched.size s + 1) s [] with
+theorem readRawFuel_spec (enc : Encoding) (f : Nat) (s : Sched) (hf : s.pre.length < f) :
+    (readRawFuel enc f s).1 = (rawSpec enc s.pre s.firstFail).1 ∧
+    (rdIsOk (readRawFuel enc f s).1 = true →
+      Sched.pre (readRawFuel enc f s).2 = (rawSpec enc s.pre s.firstFail).2 ∧
+      Sched.firstFail (readRawFuel enc f s).2 = s.firstFail) := by
+  obtain ⟨h1, h2⟩ := readLineLoop_spec enc f s []
+  rw [rawLoop_fuel enc _ f (s.pre.length + 1) _ _ hf (by omega)] at h1 h2
+  unfold readRawFuel rawSpec
+  cases hu : readLineLoop enc f s [] with
   | mk r s' =>
     cases hv : rawLoop enc s.firstFail (s.pre.length + 1) s.pre [] with
     | mk r2 rest =>
@@ -474,6 +473,13 @@ theorem readRaw_spec (enc : Encoding) (s : Sched) :
         obtain ⟨hp, hf⟩ := h2 rfl
         simp only []
         by_cases he : buf.isEmpty = true <;> simp [he, hp, hf]
+
+theorem readRaw_spec (enc : Encoding) (s : Sched) :
+    (readRaw enc s).1 = (rawSpec enc s.pre s.firstFail).1 ∧
+    (rdIsOk (readRaw enc s).1 = true →
+      Sched.pre (readRaw enc s).2 = (rawSpec enc s.pre s.firstFail).2 ∧
+      Sched.firstFail (readRaw enc s).2 = s.firstFail) :=
+  readRawFuel_spec enc _ s (by have := pre_length_le_size s; omega)
 
 theorem rawSpec_some_lt {enc : Encoding} {bs : List UInt8} {ff : Option IoKind} {buf rest : List UInt8}
     (h : rawSpec enc bs ff = (.ok (some buf), rest)) : rest.length < bs.length := by
@@ -515,14 +521,14 @@ def linesSpecFuel (enc : Encoding) (ff : Option IoKind) : Nat → List UInt8 →
 def linesSpec (enc : Encoding) (ff : Option IoKind) (bs : List UInt8) : List Str × Option IoKind :=
   linesSpecFuel enc ff (bs.length + 1) bs
 
-theorem readAllFuel_spec (enc : Encoding) (f : Nat) (s : Sched) :
+theorem readAllFuel_spec (enc : Encoding) (f : Nat) (s : Sched) (hf : s.pre.length < f) :
     readAllFuel enc f s = linesSpecFuel enc s.firstFail f s.pre := by
   induction f generalizing s with
   | zero => rfl
   | succ n ih =>
-    obtain ⟨h1, h2⟩ := readRaw_spec enc s
+    obtain ⟨h1, h2⟩ := readRawFuel_spec enc (n + 1) s hf
     simp only [readAllFuel, linesSpecFuel]
-    cases hr : readRaw enc s with
+    cases hr : readRawFuel enc (n + 1) s with
     | mk r s' =>
       cases hq : rawSpec enc s.pre s.firstFail with
       | mk r2 rest =>
@@ -535,9 +541,10 @@ theorem readAllFuel_spec (enc : Encoding) (f : Nat) (s : Sched) :
           cases o with
           | none => rfl
           | some buf =>
-            obtain ⟨hp, hf⟩ := h2 rfl
+            obtain ⟨hp, hf'⟩ := h2 rfl
+            have hlt := rawSpec_some_lt hq
             simp only []
-            rw [ih s', hp, hf]
+            rw [ih s' (by rw [hp]; omega), hp, hf']
 
 theorem linesSpecFuel_fuel (enc : Encoding) (ff : Option IoKind) (f1 f2 : Nat) (bs : List UInt8)
     (h1 : bs.length < f1) (h2 : bs.length < f2) :
@@ -566,7 +573,7 @@ fatal error and that error.** -/
 theorem readAll_eq_spec (enc : Encoding) (s : Sched) :
     readAll enc s = linesSpec enc s.firstFail s.pre := by
   unfold readAll linesSpec
-  rw [readAllFuel_spec]
+  rw [readAllFuel_spec enc _ s (by have := pre_length_le_size s; omega)]
   exact linesSpecFuel_fuel enc _ _ _ _ (by have := pre_length_le_size s; omega) (by omega)
 
 /-- one unfolding of `linesSpec`, free of fuel. -/
